@@ -65,6 +65,7 @@ if confirmed:
         finally:
             sh("git -C /repo checkout -- .")
     # restore the evidence of the unchanged tree
-    sh(f"./check {prop} quick", ROOT)
+    if os.environ.get("SEEDCHECK_NO_RESTORE") != "1":
+        sh(f"./check {prop} quick", ROOT)
 json.dump(meta, open(os.path.join(dst, "meta.json"), "w"), indent=1)
 print(json.dumps(meta, indent=1))
